@@ -514,6 +514,8 @@ def subscript(it, base, idx, node, for_store=False):
         ok, k = const_of(idx)
         u = VUnknown("%s[%s]" % (base.tag, repr(k) if ok else "?"), "unknown", base.origin)
         if base.kind == "shape":
+            if isinstance(idx, VSlice):
+                return VUnknown("shape[:]", "shape")
             v = VNum("int", T.sym("dim?"), nonneg=True)
             v.dim = UNK
             return v
